@@ -151,6 +151,9 @@ package node
 //@   ensures[not-inserted]    !__called("signAndInsertSelfEvent") ==> __eq(c.transactionPool, old(c.transactionPool)) && __eq(c.internalTransactionPool, old(c.internalTransactionPool))
 //@   call signAndInsertSelfEvent assert[handover] __arg(0) == newHead && __eq(newHead.Body.Transactions, old(c.transactionPool)) && __eq(newHead.Body.InternalTransactions, old(c.internalTransactionPool)) && newHead.Body.Index == old(c.seq) + 1 && len(newHead.Body.Parents) == 2 && newHead.Body.Parents[0] == old(c.head) && newHead.Body.Parents[1] == otherHead
 //@   ensures[trimmed]         ret0 == nil && __called("signAndInsertSelfEvent") ==> len(c.transactionPool) == 0 && len(c.internalTransactionPool) == 0
+// the payload leaves the pools only together with a successful insertion of the event that carries it - whatever
+// addSelfEvent itself returns
+//@   ensures[kept-unless-inserted] __called("signAndInsertSelfEvent") && __lastret("signAndInsertSelfEvent", 0) != nil ==> __eq(c.transactionPool, old(c.transactionPool)) && __eq(c.internalTransactionPool, old(c.internalTransactionPool))
 //@   ensures[kept-on-failure] ret0 != nil ==> __eq(c.transactionPool, old(c.transactionPool)) && __eq(c.internalTransactionPool, old(c.internalTransactionPool))
 //@   call signAndInsertSelfEvent assert[pools-intact] __eq(c.transactionPool, old(c.transactionPool)) && __eq(c.internalTransactionPool, old(c.internalTransactionPool))
 
